@@ -39,6 +39,8 @@ type c12SimIn struct {
 	DumpMax  int      `json:"dumpMax"`  // max events dumped for the model comparison
 	TraceMax int      `json:"traceMax"` // length of the trace prefix dumped for quic_consistent / bookkeeping
 	Clean    bool     `json:"clean"`    // loss-free, never app-limited: throughput is reported
+	MaxPkts  int64    `json:"maxPkts"`  // > 0: built with newBbrSender and this maximum window (datagrams) instead of NewBbrSender's
+	IcwPkts  int64    `json:"icwPkts"`  // > 0 (with maxPkts): initial window in datagrams (default initialCongestionWindowPackets)
 }
 
 type c12Clock struct{ now *int64 }
@@ -109,16 +111,33 @@ func c12CloneSampler(s *bandwidthSampler) *bandwidthSampler {
 	return &c
 }
 
-// the pacer bandwidth before the floor: congestion.ByteCount(float64(PacingRate())/float64(BytesPerSecond))
-func c12RawBps(b *bbrSender) int64 {
-	return int64(congestion.ByteCount(float64(b.PacingRate()) / float64(BytesPerSecond)))
+// the inputs and the output of bandwidthForPacer as the model needs them: the pacingRate field (bits/s), what
+// PacingRate() returns instead while that field is still 0 (a float-derived value: oracle; 0 otherwise), and the
+// value the pacer is given.  The division by BytesPerSecond and the floor are recomputed by the Coq model.
+func c12PacerTail(b *bbrSender) []int64 {
+	pr := uint64(b.pacingRate)
+	fb := uint64(0)
+	if pr == 0 {
+		fb = uint64(b.PacingRate())
+	}
+	return []int64{int64(b.GetCongestionWindow()), int64(pr), int64(fb), int64(b.bandwidthForPacer())}
 }
 
 func c12Sim(in *c12SimIn, res map[string]any) {
 	rng := rand.New(rand.NewSource(in.Seed))
 	var now int64 = int64(time.Millisecond) // monotime zero is "unset": start at 1 ms
 	rtt := &c12RTT{}
-	b := NewBbrSender(c12Clock{&now}, congestion.ByteCount(in.Mds), Profile(in.Profile))
+	var b *bbrSender
+	if in.MaxPkts > 0 {
+		icw := int64(initialCongestionWindowPackets)
+		if in.IcwPkts > 0 {
+			icw = in.IcwPkts
+		}
+		b = newBbrSender(c12Clock{&now}, congestion.ByteCount(in.Mds), congestion.ByteCount(icw*in.Mds),
+			congestion.ByteCount(in.MaxPkts*in.Mds), Profile(in.Profile))
+	} else {
+		b = NewBbrSender(c12Clock{&now}, congestion.ByteCount(in.Mds), Profile(in.Profile))
+	}
 	b.SetRTTStatsProvider(rtt)
 	agg := b.enableAckAggregationDuringStartup
 
@@ -171,14 +190,47 @@ func c12Sim(in *c12SimIn, res map[string]any) {
 		}
 		return -1
 	}
-	wantDump := func(interesting bool) bool {
+	// Which events are dumped for the model (at most DumpMax): bind = a clamp of the property is binding or close to
+	// binding after the event (pacing rate below twice the floor; window at the maximum, or the full-bandwidth target above
+	// it), trans = mode / recovery / full-bandwidth change or a loss, otherwise the first events + a thinning random sample.  Every class has a share of the budget so that a long STARTUP on a fat path or a lossy phase cannot
+	// use it up before the sender reaches DRAIN / PROBE_BW / PROBE_RTT.  Sampling has its own generator: it never changes
+	// the simulated history.
+	drng := rand.New(rand.NewSource(in.Seed ^ 0x5eed5eed))
+	nPlain, nBind, nBindSeen, nFloorEv, nCapEv := 0, 0, 0, 0, 0
+	bindingNow := func() bool {
+		floor := uint64(b.PacingRate())/uint64(BytesPerSecond) < 2*minBps
+		capb := b.congestionWindow >= b.maxCongestionWindow ||
+			(b.isAtFullBandwidth && b.getTargetCongestionWindow(b.congestionWindowGain)+b.sampler.MaxAckHeight() > b.maxCongestionWindow)
+		if floor {
+			nFloorEv++
+		}
+		if capb {
+			nCapEv++
+		}
+		return floor || capb
+	}
+	wantDump := func(trans, bind bool, thin int) bool {
 		if len(dumps) >= in.DumpMax {
 			return false
 		}
-		if evNo < in.DumpMax/3 || interesting {
+		if bind {
+			nBindSeen++
+			if nBind < in.DumpMax/2 && (nBindSeen <= 16 || drng.Intn(8+nBindSeen/16) == 0) {
+				nBind++
+				return true
+			}
+		}
+		if trans {
+			return len(dumps) < in.DumpMax-max(0, in.DumpMax/4-nBind)
+		}
+		if nPlain >= in.DumpMax/3 {
+			return false
+		}
+		if (evNo < in.DumpMax/3 || drng.Intn(40+evNo/50) == 0) && drng.Intn(thin) == 0 {
+			nPlain++
 			return true
 		}
-		return rng.Intn(40) == 0
+		return false
 	}
 
 	// property verdict on the real sender, after every event
@@ -242,17 +294,17 @@ func c12Sim(in *c12SimIn, res map[string]any) {
 			fail("panic in OnPacketSent: " + msg)
 			return
 		}
-		if wantDump(false) && rng.Intn(4) == 0 {
+		verdict()
+		if wantDump(false, bindingNow(), 4) || (!ok && len(dumps) < in.DumpMax+8) { // the event that fails the verdict is always dumped
 			d := append([]int64{0}, before...)
 			d = append(d, pn, bytesInFlight)
 			d = append(d, c12Fields(b)...)
-			d = append(d, int64(b.GetCongestionWindow()), c12RawBps(b), int64(b.bandwidthForPacer()))
+			d = append(d, c12PacerTail(b)...)
 			dumps = append(dumps, d)
 		}
 		if len(trace) < in.TraceMax {
 			trace = append(trace, append([]int64{0, pn, size, c12B(retx)}, traceObs()...))
 		}
-		verdict()
 		if !retx {
 			nNonRtx++
 			return
@@ -357,7 +409,8 @@ func c12Sim(in *c12SimIn, res map[string]any) {
 		}
 		after := c12Fields(b)
 		interesting := before[8] != after[8] || before[9] != after[9] || before[10] != after[10] || len(li) > 0
-		if wantDump(interesting) {
+		verdict()
+		if wantDump(interesting, bindingNow(), 1) || (!ok && len(dumps) < in.DumpMax+8) {
 			sample := clone.OnCongestionEvent(monotime.Time(now), ai, li, bestBefore, infBandwidth, b.roundTripCount)
 			la := int64(-1)
 			if len(ai) != 0 {
@@ -369,7 +422,7 @@ func c12Sim(in *c12SimIn, res map[string]any) {
 				int64(sample.extraAcked), int64(b.sampler.TotalBytesAcked()-totA0), int64(b.sampler.TotalBytesLost()-totL0),
 				int64(b.sampler.TotalBytesAcked()))
 			d = append(d, after...)
-			d = append(d, int64(b.GetCongestionWindow()), c12RawBps(b), int64(b.bandwidthForPacer()))
+			d = append(d, c12PacerTail(b)...)
 			dumps = append(dumps, d)
 		}
 		if len(trace) < in.TraceMax {
@@ -382,7 +435,6 @@ func c12Sim(in *c12SimIn, res map[string]any) {
 			}
 			trace = append(trace, append(t, traceObs()...))
 		}
-		verdict()
 	}
 
 	end := in.DurMs * ms
@@ -406,7 +458,7 @@ func c12Sim(in *c12SimIn, res map[string]any) {
 					d := append([]int64{2}, before...)
 					d = append(d, s)
 					d = append(d, c12Fields(b)...)
-					d = append(d, int64(b.GetCongestionWindow()), c12RawBps(b), int64(b.bandwidthForPacer()))
+					d = append(d, c12PacerTail(b)...)
 					dumps = append(dumps, d)
 				}
 				if len(trace) < in.TraceMax {
@@ -575,5 +627,6 @@ func c12Sim(in *c12SimIn, res map[string]any) {
 		"sent": nSent, "cong": nCong, "lossOnly": nLossOnly, "setMds": nSetMds, "gaps": nGaps, "nonRtx": nNonRtx, "lost": nLost,
 		"modes": modes, "recovery": recs, "delivered": delivered, "throughputRatio": thr, "maxSlots": maxSlots,
 		"finalCwnd": int64(b.GetCongestionWindow()), "events": evNo,
+		"floorEvents": nFloorEv, "capEvents": nCapEv, "bindDumps": nBind,
 	}
 }
